@@ -268,8 +268,8 @@ def generate(pid, ctx, lines):
     return cases, descs, len(shards), bad_cases
 
 
-ORACLE_KINDS_C14 = ("error-status-but-resource-changed", "text-not-verbatim", "routes-disagree",
-                    "served-valuation-differs-from-fresh-instance")
+ORACLE_KINDS_C14 = ("error-status-but-resource-changed", "error-status-but-hidden-state-changed", "text-not-verbatim",
+                    "routes-disagree", "served-valuation-differs-from-fresh-instance")
 
 
 def common(pid, ctx, sub):
